@@ -177,7 +177,7 @@ theorem no_ub (t : IntTy) (v : Int) (hv : t.holds v) :
     rw [h]; rfl
   · rw [stream_canonical t v hv]; rfl
 
-/-! The pinned tree (before repair 72bf29f) violated `no_ub`: `std::abs` of the most negative value. -/
+/-! The pinned tree (before repair 1061812) violated `no_ub`: `std::abs` of the most negative value. -/
 
 /-- witness of defect #12 in `ST::format`: `format_numeric_s<int>` at `INT_MIN` -/
 theorem pinned_format_ub_witness : Pinned.formatNumericS 32 .dflt (-2147483648) = .ub "negation" := by decide
